@@ -1,141 +1,126 @@
-"""Regenerates MANIFEST.json from the table below (run by hand after adding a check)."""
+"""Regenerates MANIFEST.json from the tables below (run by hand after changing a check)."""
 import json
 from pathlib import Path
 
 ROOT = Path(__file__).resolve().parent.parent
 props = [json.loads(l) for l in (ROOT / "properties.jsonl").read_text().splitlines() if l.strip()]
 
-LEVEL_NOTE = ("Trusted: Lean 4.33 kernel; axioms propext/Classical.choice/Quot.sound only (audited each run); the hand-written "
-              "Lean model is tied to /repo only by the correspondence run (exact on explored cases); CPython/regex behave as documented.")
+LEVEL_NOTE = ("Trusted: Lean 4.33 kernel; axioms propext/Classical.choice/Quot.sound only (audited each run with #print axioms; no sorry/"
+              "native_decide/added axioms, grep each run); the hand-written Lean model is tied to /repo only by the correspondence run "
+              "(exact on explored cases, not beyond); CPython and the regex package behave as documented. See DESIGN.md §8.")
+
+T_MODEL = ("hand-written Lean 4 model (spec L0 / interpreter L1 / generated code LG / optimizer OPT) tied to the code by exact differential "
+           "correspondence; property oracle evaluated on the implementation")
 
 CHECKS = {
-    "C09": dict(
-        engine="stack",
-        category="proof",
-        text=("Theorems (all histories, unbounded): the delta-encoded Stack model refines a full-copy stack (stack_refines, "
-              "inv_apply, abs_apply), its asserts cannot fail, SnapshottingInt and ParserState.checkpoint/ok/restore refine "
-              "full copies in lock-step (snapint_history, pstate_refines). The model is tied to src/pest/stack.py, "
-              "checkpoint_int.py, state.py by an exhaustive correspondence run (all op sequences to length 7/9 on Stack, 5/6 on "
-              "ParserState, plus random long histories); the same run compares the implementation with a full-copy reference "
-              "and yields the failing history as replay."),
-        design_ref="§6 C09",
-        technique="Lean 4 refinement proof (invariant + abstraction function, induction over histories) + exhaustive differential correspondence model/impl",
-    ),
-    "C14": dict(
-        engine="text",
-        category="proof",
-        text=("Theorems for all texts and offsets (induction over the text): Position.line_col equals the specification "
-              "(1 + number of line breaks before p, 1 + distance from the last line break) on \\n-texts (line_col_spec), the "
-              "specification is injective (line_col_injective), Span.lines returns exactly the lines the closed span touches "
-              "(span_lines_spec, span_lines_touch), line_of returns the line containing p (line_of_spec), str(span) = text[a:b], "
-              "and none of them raises for any text over Python's full line-separator set. The Lean model mirrors the Python "
-              "statement by statement (splitlines(keepends=True) included) and is tied to src/pest/pairs.py by an exhaustive "
-              "correspondence run (all texts over {a,b,\\n} to length 7/9 x all offsets and spans, plus texts with the other "
-              "separators and random long texts); the same run evaluates the property's formula directly on the real code."),
-        design_ref="§6 C14",
-        technique="Lean 4 proof by induction over the text (model = spec) + exhaustive differential correspondence model/impl",
-    ),
-    "C01": dict(
-        engine="core",
-        category="other",
-        text="Correspondence + direct oracle (theorem gen_equiv_interp pending, see DESIGN §6 C01): the Lean mirror of every generate() template (LG) is compared with the exec'd Parser.generate() module, and the Lean mirror of the interpreter (L1) with Parser.parse, exactly (tree with tags, furthest position, expected/unexpected key lists), on random grammars from 13 feature groups and on the bundled grammars; the same run compares Parser.parse with the generated parse on the same Parser object (dump, or furthest position when both fail), checks that the source compiles and that generating twice gives identical source.",
-        design_ref="§6 C01",
-        technique="hand-written Lean 4 model (spec/interp/gen/opt layers) tied to the code by differential correspondence; property oracle on the implementation; Lean theorems being added",
-    ),
-    "C02": dict(
-        engine="core",
-        category="other",
-        text="Correspondence + direct oracle (theorem optimizer_sound pending): the Lean mirror of the optimizer is compared with the real Optimizer's output AS TREES for the default pipeline and random lists of default passes; opt/optgen parse results are compared with the model; the same run compares optimizer=None with Optimizer(passes) interpreted and generated.",
-        design_ref="§6 C02",
-        technique="hand-written Lean 4 model (spec/interp/gen/opt layers) tied to the code by differential correspondence; property oracle on the implementation; Lean theorems being added",
-    ),
-    "C03": dict(
-        engine="core",
-        category="proof",
-        text="Executable specification L0 of pest's semantics (lean/PestModel/Spec.lean) run by the Lean driver against the interpreter on core-operator grammars (trees and success/failure), plus exact correspondence of the L1 mirror; theorem interp_refines_spec pending.",
-        design_ref="§6 C03",
-        technique="hand-written Lean 4 model (spec/interp/gen/opt layers) tied to the code by differential correspondence; property oracle on the implementation; Lean theorems being added",
-    ),
-    "C04": dict(
-        engine="core",
-        category="other",
-        text='Executable specification L0 (implicit trivia placement, atomicity, @-hiding) against all four execution modes on trivia/modifier feature groups, plus exact correspondence of the L1/LG/OPT mirrors; refinement theorem pending.',
-        design_ref="§6 C04",
-        technique="hand-written Lean 4 model (spec/interp/gen/opt layers) tied to the code by differential correspondence; property oracle on the implementation; Lean theorems being added",
-    ),
-    "C05": dict(
-        engine="core",
-        category="other",
-        text='Executable specification L0 (stack operations, undo on backtracking) against all four modes on stack feature groups with nested catch points, plus exact correspondence of L1/LG; rests on the C09 refinement theorem for the stack; refinement theorem pending.',
-        design_ref="§6 C05",
-        technique="hand-written Lean 4 model (spec/interp/gen/opt layers) tied to the code by differential correspondence; property oracle on the implementation; Lean theorems being added",
-    ),
-    "C06": dict(
-        engine="core",
-        category="other",
-        text='Tree well-formedness invariants evaluated through the public Pair/Pairs API on every successful parse of the run in all four modes (random and bundled grammars); theorem spec_tree_wf pending.',
-        design_ref="§6 C06",
-        technique="hand-written Lean 4 model (spec/interp/gen/opt layers) tied to the code by differential correspondence; property oracle on the implementation; Lean theorems being added",
-    ),
-    "C07": dict(
-        engine="core",
-        category="other",
-        text='All four modes on well-formed grammars: no exception other than PestParsingError escapes, the repeated call is equal, every parse terminates within the time limit; exact correspondence with the models (which have an explicit exc result); theorems interp_no_exc / parse_terminates pending.',
-        design_ref="§6 C07",
-        technique="hand-written Lean 4 model (spec/interp/gen/opt layers) tied to the code by differential correspondence; property oracle on the implementation; Lean theorems being added",
-    ),
-    "C08": dict(
-        engine="core",
-        category="other",
-        text='Metamorphic run on the implementation: meaning-preserving rewrites (parentheses, re-association, extraction into a silent rule, e|e, (e~NEVER)|e, (!e~NEVER)|e) at random sites of random grammars and of the bundled grammars (ASTs recovered from the real trees, printer round-trip checked), original vs rewritten in all four modes; L0 algebra theorems pending.',
-        design_ref="§6 C08",
-        technique="hand-written Lean 4 model (spec/interp/gen/opt layers) tied to the code by differential correspondence; property oracle on the implementation; Lean theorems being added",
-    ),
-    "C13": dict(
-        engine="core",
-        category="other",
-        text='Every failing parse of the run in all four modes: furthest position in range, listed names are rules/built-ins, str()/detailed_message() render, error_context equals the C14 formula; exact correspondence of furthest position and key lists with the L1/LG models; theorems fpos_in_range etc. pending.',
-        design_ref="§6 C13",
-        technique="hand-written Lean 4 model (spec/interp/gen/opt layers) tied to the code by differential correspondence; property oracle on the implementation; Lean theorems being added",
-    ),
-    "C16": dict(
-        engine="core",
-        category="other",
-        text='On SOI-free grammars in all four modes: parse(r,t,start_pos=k) equals parse(r,t[k:]) shifted by k (trees and failure positions), and changing the characters before k changes nothing; every correspondence request of the run uses random k as well; theorem shift_invariance pending.',
-        design_ref="§6 C16",
-        technique="hand-written Lean 4 model (spec/interp/gen/opt layers) tied to the code by differential correspondence; property oracle on the implementation; Lean theorems being added",
-    ),
-    "C18": dict(
-        engine="pratt",
-        category="proof",
-        text=("Theorems for all operator tables and all token streams: the model of the repaired parse_expr consumes every well-formed "
-              "stream (pratt_consumes_all), yields the input (pratt_yield), returns a tree satisfying the binding-power specification "
-              "Good (pratt_good), which is the unique such tree (good_unique, pratt_complete, pratt_spec). The model mirrors "
-              "PrattParser.parse_expr and Stream.next/peek and is tied to src/pest/pratt.py by a correspondence run over random and "
-              "exhaustive small tables x all well-formed streams up to length 7/9; the same run compares the real code with an "
-              "independent Python reference of the specification."),
-        design_ref="§6 C18",
-        technique="Lean 4 proof (induction on fuel/stream; uniqueness of the Good tree) + exhaustive differential correspondence model/impl",
-    ),
+    "C01": ("core", "proof",
+            "Theorems gen_equiv_interp / generated_parse_eq (all grammars incl. optimizer-made nodes, expressions, inputs, start positions, "
+            "related states, fuel): the model LG of every generate() template, generate_rule, generate_parse_trivia and the generated parse() "
+            "gives the same verdict as the interpreter model L1, exactly the same pairs (names, spans, nesting, tags) on success and the same "
+            "furthest-failure position on failure, and never raises IndexError/UnboundLocalError. LG and L1 are tied to the code by exact "
+            "correspondence (exec'd Parser.generate() module vs LG, Parser.parse vs L1: tree, furthest position, key lists) on random grammars "
+            "from 13 feature groups and the bundled grammars; the same run compares Parser.parse with the generated parse on the same Parser. "
+            "Not a theorem (checked on every generated module of the run): the source compiles/imports; generating twice is byte-identical.",
+            "Lean 4 simulation proof LG ≈ L1 (state relation + frame conditions, induction on fuel) + " + T_MODEL),
+    "C02": ("core", "other",
+            "Correspondence + direct oracle (soundness theorems for the passes in progress): the Lean mirror of the optimizer is compared with "
+            "the real Optimizer's output AS TREES for the default pipeline and random lists of default passes; opt/optgen parse results are "
+            "compared with the models; the same run compares optimizer=None with Optimizer(passes), interpreted and generated.",
+            T_MODEL),
+    "C03": ("core", "proof",
+            "Theorems interp_refines_spec / parse_agrees_with_spec (all grammars, expressions, inputs, start positions, states, fuel): the "
+            "interpreter mirror L1 (Expression.parse, Rule.parse, ParserState incl. the delta-encoded Stack) refines the specification L0 of "
+            "pest's semantics - same success/failure, same tree up to tags, same end state, every saved checkpoint untouched, no exception but "
+            "KeyError for an undefined rule; plus the reading-level laws of L0 (ordered committed choice, greedy repetition, bounded = unrolled, "
+            "predicates consume nothing, one pair per non-silent rule). L1 is tied to the code by exact correspondence (tree, furthest position, "
+            "key lists) and the executable L0 is run against the implementation, on generated core-operator grammars.",
+            "Lean 4 refinement proof L1 ⊑ L0 (frame/checkpoint discipline, induction on fuel) + " + T_MODEL),
+    "C04": ("core", "other",
+            "Proved (Lean): the trivia-placement and atomicity laws of L0 (seq_trivia_between, rep_trailing_trivia_given_back, atomic_no_trivia, "
+            "rule_atomicity, atomic_rule_single_pair/visible_spec, …), that the interpreter model obeys them for every grammar "
+            "(interp_trivia_and_modifiers, trivia_interp_eq) and that generated code equals the interpreter (C01). Not yet proved: the optimizer "
+            "half (opt/optgen modes), which is C02 - hence level 'other'. All four modes are compared with the executable L0 and with their "
+            "models on trivia/modifier feature groups.",
+            "Lean 4 refinement proof (interp, gen modes) + " + T_MODEL),
+    "C05": ("core", "other",
+            "Proved (Lean): the seven stack clauses of L0 restated (push_spec … peek_slice_spec), stack_ops_never_raise and "
+            "failed_op_is_identity for the interpreter model, undo on backtracking as the refinement theorem (rests on C09), and the same for "
+            "generated code via C01. Not yet proved: optimized modes (C02) - hence level 'other'. All four modes are compared with the "
+            "executable L0 and with their models on stack feature groups with nested catch points.",
+            "Lean 4 refinement proof (interp, gen modes; Stack via C09) + " + T_MODEL),
+    "C06": ("core", "other",
+            "Tree well-formedness invariants evaluated through the public Pair/Pairs API on every successful parse of the run in all four modes "
+            "(random and bundled grammars); exact correspondence of trees with the models; theorem spec_tree_wf in progress.", T_MODEL),
+    "C07": ("core", "other",
+            "Proved (Lean): the interpreter and generated-code models never raise anything but KeyError for an undefined rule "
+            "(interp_exc_only_undefined, gen_no_exc), and they are functions of (grammar, rule, input, start position). Not proved: termination "
+            "for well-formed grammars. Checked on the implementation: all four modes on well-formed grammars - only PestParsingError escapes, the "
+            "repeated call is equal, every parse ends within the time limit.", T_MODEL),
+    "C08": ("core", "other",
+            "Metamorphic run on the implementation: meaning-preserving rewrites (parentheses, re-association, extraction into a silent rule, e|e, "
+            "(e~NEVER)|e, (!e~NEVER)|e) at random sites of random grammars and of the bundled grammars (ASTs recovered from the real trees, "
+            "printer round-trip checked), original vs rewritten in all four modes; L0 algebra theorems in progress.", T_MODEL),
+    "C09": ("stack", "proof",
+            "Theorems (all histories, unbounded): the delta-encoded Stack model refines a full-copy stack (stack_refines, inv_apply, abs_apply), "
+            "its asserts cannot fail, SnapshottingInt and ParserState.checkpoint/ok/restore refine full copies in lock-step (snapint_history, "
+            "pstate_refines). The model is tied to src/pest/stack.py, checkpoint_int.py, state.py by an exhaustive correspondence run (all op "
+            "sequences to length 7/9 on Stack, 5/6 on ParserState, plus random long histories); the same run compares the implementation with "
+            "a full-copy reference and yields the failing history as replay.",
+            "Lean 4 refinement proof (invariant + abstraction function, induction over histories) + exhaustive differential correspondence"),
+    "C13": ("core", "other",
+            "Every failing parse of the run in all four modes: furthest position in range, listed names are rules/built-ins, "
+            "str()/detailed_message() render, error_context equals the C14 formula; exact correspondence of furthest position and key lists "
+            "with the L1/LG models; Lean theorems for error_context (total, equals line/col of p) are proved (Props/C13Text), fpos_in_range in "
+            "progress.", T_MODEL),
+    "C14": ("text", "proof",
+            "Theorems for all texts and offsets (induction over the text): Position.line_col equals the specification (1 + number of line "
+            "breaks before p, 1 + distance from the last line break) on \\n-texts (line_col_spec), the specification is injective, Span.lines "
+            "returns exactly the lines the closed span touches, line_of returns the line containing p, str(span) = text[a:b], and none of them "
+            "raises for any text over Python's full line-separator set. The model mirrors the Python statement by statement and is tied to "
+            "src/pest/pairs.py by an exhaustive correspondence run (all texts over {a,b,\\n} to length 7/9 x all offsets and spans, plus other "
+            "separators and random long texts); the same run evaluates the property's formula directly on the real code.",
+            "Lean 4 proof by induction over the text (model = spec) + exhaustive differential correspondence"),
+    "C16": ("core", "other",
+            "On SOI-free grammars in all four modes: parse(r,t,start_pos=k) equals parse(r,t[k:]) shifted by k (trees and failure positions), "
+            "and changing the characters before k changes nothing; every correspondence request of the run uses random k as well; theorem "
+            "shift_invariance in progress.", T_MODEL),
+    "C18": ("pratt", "proof",
+            "Theorems for all operator tables and all token streams: the model of the repaired parse_expr consumes every well-formed stream "
+            "(pratt_consumes_all), yields the input (pratt_yield), returns a tree satisfying the binding-power specification Good (pratt_good), "
+            "which is the unique such tree (good_unique, pratt_complete, pratt_spec). The model mirrors PrattParser.parse_expr and "
+            "Stream.next/peek and is tied to src/pest/pratt.py by a correspondence run over random and exhaustive small tables x all well-formed "
+            "streams up to length 7/9; the same run compares the real code with an independent Python reference of the specification.",
+            "Lean 4 proof (induction on fuel/stream; uniqueness of the Good tree) + exhaustive differential correspondence"),
 }
 
-NOT_YET = "check not built yet in this snapshot of /verif (work in progress; see DESIGN.md §9.1 for the order of work)"
+ENGINES = [
+    {"name": "stack", "path": "harness/eng_stack.py", "serves_properties": ["C09"],
+     "kind_free_text": "Lean model lean/PestModel/{Stack,State}.lean + proofs Props/C09.lean; exhaustive + random histories, three-way comparison impl / full-copy reference / Lean model"},
+    {"name": "core", "path": "harness/eng_core.py", "serves_properties": ["C01", "C02", "C03", "C04", "C05", "C06", "C07", "C08", "C13", "C16"],
+     "kind_free_text": "Lean models Spec (L0), Interp (L1), Gen (LG), Opt; proofs Lemmas/{Frame,Refine,GenEq}.lean, Props/C0x.lean; grammar generator; four execution modes; per-property oracles"},
+    {"name": "pratt", "path": "harness/eng_pratt.py", "serves_properties": ["C18"],
+     "kind_free_text": "Lean model lean/PestModel/Pratt.lean + proofs Props/C18.lean; tables x streams, three-way comparison"},
+    {"name": "text", "path": "harness/eng_text.py", "serves_properties": ["C14"],
+     "kind_free_text": "Lean model lean/PestModel/LineCol.lean + proofs Props/C14.lean; exhaustive small texts x offsets, three-way comparison impl / formula / Lean model"},
+]
+
+NOT_YET = "check not integrated yet in this snapshot of /verif (engine under construction; see DESIGN.md §9.1)"
 
 checks, na = [], []
 for p in props:
     pid = p["id"]
     if pid in CHECKS:
-        c = CHECKS[pid]
+        eng, cat, text, tech = CHECKS[pid]
         checks.append({
             "property_id": pid,
             "quick_cmd": f"./check {pid} --tier quick",
             "thorough_cmd": f"./check {pid} --tier thorough",
             "evidence_file": f"evidence/{pid}.json",
             "replay_cmd_template": f"./check {pid} --replay {{path}}",
-            "engine": c["engine"],
-            "level_claimed": {"category": c["category"], "text": c["text"], "design_ref": c["design_ref"]},
-            "level_note": c.get("level_note", LEVEL_NOTE),
-            "technique": c["technique"],
+            "engine": eng,
+            "level_claimed": {"category": cat, "text": text, "design_ref": f"§6 {pid}"},
+            "level_note": LEVEL_NOTE,
+            "technique": tech,
         })
     else:
         na.append({"property_id": pid, "reason": NOT_YET})
@@ -150,19 +135,17 @@ manifest = {
         "source_commits": [],
         "add_only": True,
     },
-    "engines": [
-        {"name": "stack", "path": "harness/eng_stack.py", "serves_properties": ["C09"],
-         "kind_free_text": "Lean model lean/PestModel/{Stack,State}.lean + proofs Props/C09.lean; exhaustive + random histories, three-way comparison impl / full-copy reference / Lean model"},
-        {"name": "core", "path": "harness/eng_core.py", "serves_properties": ["C01", "C02", "C03", "C04", "C05", "C06", "C07", "C08", "C13", "C16"],
-         "kind_free_text": "Lean models Spec (L0), Interp (L1), Gen (LG), Opt; grammar generator; four execution modes; per-property oracles"},
-        {"name": "pratt", "path": "harness/eng_pratt.py", "serves_properties": ["C18"],
-         "kind_free_text": "Lean model lean/PestModel/Pratt.lean + proofs Props/C18.lean; tables x streams, three-way comparison"},
-        {"name": "text", "path": "harness/eng_text.py", "serves_properties": ["C14"],
-         "kind_free_text": "Lean model lean/PestModel/LineCol.lean + proofs Props/C14.lean; exhaustive small texts x offsets, three-way comparison impl / formula / Lean model"},
-    ],
+    "engines": ENGINES,
     "checks": checks,
     "not_applicable": na,
     "notes": "Technique family: machine-checked proof in Lean 4 with a hand-written model tied to the code by a behavioural correspondence check. See DESIGN.md.",
 }
 (ROOT / "MANIFEST.json").write_text(json.dumps(manifest, indent=1) + "\n")
 print("wrote MANIFEST.json:", len(checks), "checks,", len(na), "not applicable")
+
+# keep main.py's level per property in sync with the table
+main = (ROOT / "harness" / "main.py").read_text()
+for pid, (_e, cat, _t, _k) in CHECKS.items():
+    import re
+    main, n = re.subn(rf'("{pid}": \("[\w]+", )"[\w]+"\)', rf'\1"{cat}")', main)
+(ROOT / "harness" / "main.py").write_text(main)
